@@ -18,7 +18,7 @@ from mc.lexer import LexError, lex
 from pypika_tortoise import Database, Schema, AliasedQuery, Field, Query, Table
 from pypika_tortoise import functions as FN
 from pypika_tortoise.queries import Column
-from pypika_tortoise.terms import Index, SystemTimeValue
+from pypika_tortoise.terms import Index, SystemTimeValue, ValueWrapper
 
 PROPERTY = "C07"
 
@@ -77,6 +77,17 @@ SITES = {
     "table_into_str": lambda Q, N: Q.into(N).insert(1),
     "table_update_str": lambda Q, N: Q.update(N).set("a", 1),
     "table_join_str": lambda Q, N: Q.from_(T()).join(Table(N)).on(T().id == Table(N).id).select(T().a, Table(N).b).where(Table(N).c == 1),
+    # the table is replaced (by an equal, separately built Table object): its name must be gone from every reference
+    "replaced_table_gone": lambda Q, N: (Q.from_(Table(N)).join(U()).on(Table(N).id == U().id).select(Table(N).a, Table(N).star)
+                                          .where(Table(N).b == 1).replace_table(Table(N), Table("zznew9"))),
+    "replaced_alias_gone": lambda Q, N: (Q.from_(Table("t", alias=N)).select(Table("t", alias=N).a).where(Table("t", alias=N).b == 1)
+                                          .replace_table(Table("t", alias=N), Table("t", alias="zznew9"))),
+    "table_factory": lambda Q, N: (lambda t: Q.from_(t).select(t.a).where(t.b == 1))(Q.Tables(N, "zz9")[0]),
+    "table_factory_second": lambda Q, N: (lambda t: Q.from_(t).select(t.a).where(t.b == 1))(Q.Tables("zz9", N)[1]),
+    "table_factory_tuple": lambda Q, N: (lambda t: Q.from_(t).select(t.a).where(t.b == 1))(Q.Tables(("base9", N))[0]),
+    "table_factory_single": lambda Q, N: (lambda t: Q.from_(t).select(t.a))(Q.Table(N)),
+    "const_alias": lambda Q, N: Q.from_(T()).select(T().id, ValueWrapper("x").as_(N)).orderby(ValueWrapper("x").as_(N)),
+    "const_alias_ctor": lambda Q, N: Q.from_(T()).select(ValueWrapper(5, alias=N), T().id),
     "table_alias_star": lambda Q, N: (lambda ta: Q.from_(ta).join(U()).on(ta.id == U().id).select(ta.star, U().a))(Table("t", alias=N)),
     "table_alias_star_single": lambda Q, N: (lambda ta: Q.from_(ta).select(ta.star))(Table("t", alias=N)),
     "subquery_alias_star": lambda Q, N: (lambda s: Q.from_(s).select(s.star))(Q.from_(T()).select("a").as_(N)),
@@ -121,10 +132,11 @@ SITES = {
 
 REQUIRED_IDS = {"schema_nested3_mid": ["top9", "s9", "t"], "schema_nested3_first": ["mid9", "s9", "t"], "schema_nested4": ["top9", "mid9", "s9", "t", "u"],
                 "schema_database": ["s9", "t"], "schema_nested": ["s", "t"]}
-EXPECT_ABSENT = {"alias_of_sibling_only"}
+EXPECT_ABSENT = {"alias_of_sibling_only", "replaced_table_gone", "replaced_alias_gone"}
 EXPECT_COUNTS = {"ddl_constraint_case": (3, 1), "ddl_constraint_case_late": (1, 2)}
 # exact number of times the name must be emitted (absolute: the benign rendering is made by the same library)
-NAME_COUNT = {"table_alias_temporal": 3, "table_alias_temporal_join": 3, "table_from_str": 1, "table_into_str": 1, "table_update_str": 1, "table_join_str": 4,
+NAME_COUNT = {"table_factory": 1, "table_factory_second": 1, "table_factory_tuple": 3, "table_factory_single": 1, "const_alias": 2, "const_alias_ctor": 1,
+              "table_alias_temporal": 3, "table_alias_temporal_join": 3, "table_from_str": 1, "table_into_str": 1, "table_update_str": 1, "table_join_str": 4,
               "table_alias_star": 3, "table_alias_star_single": 2, "subquery_alias_star": 2, "ddl_period_end": 2, "ddl_period_end_col": 2,
               "ddl_period_cols": 2, "ddl_period": 1, "table_alias": 3, "subquery_alias": 2, "ddl_column": 3}
 REQUIRED_MORE = {"ddl_period_end": ["a9", "p9"], "ddl_period_end_col": ["a9", "p9"], "ddl_period_cols": ["b", "p"]}
@@ -253,6 +265,18 @@ def run_case(case):
         if got_n != NAME_COUNT[site]:
             res.violate("C07|%s|name-count" % site, "the name is emitted %d times, expected %d (it stands where another name belongs, or is missing where it belongs)"
                         % (got_n, NAME_COUNT[site]), dialect=d, site=site, name=N, sql=sql)
+            return res
+    if site in NAME_COUNT and N not in ("t", "u", "a", "b", "p", "s", "id", "x") and callable(getattr(type(o), "get_parameterized_sql", None)):
+        # the same count through the parameterised channel
+        try:
+            ptoks = lex(o.get_parameterized_sql()[0], lexd)
+            got_p = sum(1 for t in ptoks if t.kind == "ID" and t.value == N)
+        except LexError:
+            got_p = -1
+        res.transitions += 1
+        if got_p != NAME_COUNT[site] and not quote_in_name:
+            res.violate("C07|%s|name-count|parameterised" % site, "in the parameterised rendering the name is emitted %d times, expected %d" % (got_p, NAME_COUNT[site]),
+                        dialect=d, site=site, name=N, sql=o.get_parameterized_sql()[0])
             return res
     for need in list(REQUIRED_IDS.get(site, ())) + REQUIRED_MORE.get(site, []):
         if not any(t.kind == "ID" and t.value == need for t in toks):
